@@ -77,11 +77,13 @@ def gen_robots(rng, site, agent_token):
     dirs = sorted(set(p.rsplit('/', 1)[0] + '/' for p in paths if p.count('/') > 1))
     start_path = sitegen.split_url(site.start)[2]
 
+    qprefixes = sorted(set(p[:p.index('?') + k] for p in paths if '?' in p for k in (1, 3, 8) if p.index('?') + k <= len(p)))
+
     def rules():
         out = []
         used = []
         for _ in range(rng.choice([0, 1, 2, 3])):
-            cand = rng.choice(dirs + paths) if dirs else rng.choice(paths)
+            cand = rng.choice(dirs + paths + qprefixes + qprefixes) if dirs else rng.choice(paths + qprefixes)
             if cand == '/' or start_path.startswith(cand) or any(cand.startswith(u) or u.startswith(cand) for u in used):
                 continue
             used.append(cand)
@@ -144,6 +146,13 @@ def build(case):
     names = ['a.test', 'a.test:8080'] if case['hosts'] == 3 else ['a.test', 'b.test'][:case['hosts']]
     for host in names:
         site = sitegen.generate(rng, host=host, n_pages=case['n_pages'], redirects=False, requisites=False)
+        if case.get('query_pages', True):
+            # pages whose URL has a query string (rules may depend on the part after '?')
+            html = [p for p in site.pages.values() if p.kind == 'html']
+            for q in rng.sample(['/search?q=secret', '/search?q=public', '/d1/list?page=2&sessionid=abc', '/d1/list?page=3',
+                                 '/wiki/Main?action=edit', '/wiki/Main?action=view', '/?lang=de'], 4):
+                leaf = site.add(sitegen.Page('http://' + host + q, 'leaf'))
+                sitegen.add_link(rng, site, rng.choice(html).url, leaf.url, 'a', ['abs-path', 'absolute'])
         sites.append(site)
     if case['mode'] == 'nofollow':
         site = sites[0]
@@ -152,6 +161,10 @@ def build(case):
         for p in rr.sample(html, max(1, len(html) // 3)):
             p.nofollow = True
             p.extra_head = '<meta name="robots" content="%s">' % rr.choice(['nofollow', 'noindex, nofollow', 'NOFOLLOW'])
+            if rr.random() < 0.5:
+                # a followable link that precedes the meta element in the document
+                p.extra_head = '<link rel="%s" href="/early-%d.html">' % (rr.choice(['next', 'canonical', 'prev']),
+                                                                           rr.randrange(100)) + p.extra_head
     return sites
 
 
